@@ -236,6 +236,14 @@ _ROUND4 = {
  'C19': ' r11 HASH-ANNOUNCED: the stored hashes of a handle are refreshed only by a function that read the previous core hash and reaches OnCoreChange afterwards; no direct assignment outside the handle.',
  'C20': ' r6 evaluates TrimWhitespace with plain char signed, as on the platforms the library is built for.',
 }
+_ROUND5 = {
+ 'C01': ' r7 hands the recursion values out as sets (two of the same size), so a termination test that looks at anything but equality is evaluated too.',
+ 'C12': ' r14 TOKENS (shared C08 r2): TranslateRS interpreted on scripted token streams with three occurrences of a name and a replacement of another length.',
+ 'C17': ' r18 TEXT-SLICES (shared C20 r5): ccl::Substr, through which write-back copies every plain segment, never cuts inside a multi-byte character.',
+ 'C19': ' r1 also orders OSSchema::Erase: an eraser that acts only while the pictogram is stored (tests Contains) runs before storage.erase.',
+}
+for _k, _t in _ROUND5.items():
+    _ROUND4[_k] = _ROUND4.get(_k, '') + _t
 for _k, _t in _ROUND4.items():
     if _k in _AS_BUILT:
         _AS_BUILT[_k] = (_AS_BUILT[_k][0], _AS_BUILT[_k][1] + _t, _AS_BUILT[_k][2])
